@@ -55,6 +55,8 @@ IMPORT_STYLES = [
      "Circle": "sh.Circle", "Square": "sh.Square", "Point": "util.Point", "Color": "Color"},
     {"name": "function-local-import", "lines": ["import colors"], "local": True,
      "Circle": "shapes.Circle", "Square": "shapes.Square", "Point": "geo.util.Point", "Color": "colors.Color"},
+    {"name": "function-local-from-import", "lines": ["import colors"], "local": "from",
+     "Circle": "Circle", "Square": "Square", "Point": "Point", "Color": "colors.Color"},
     {"name": "mixed", "lines": ["import shapes", "from shapes import Square", "from geo.util import Point", "from colors import *"],
      "Circle": "shapes.Circle", "Square": "Square", "Point": "Point", "Color": "Color"},
 ]
@@ -90,11 +92,18 @@ def build(rng, name, opts=None):
         L += ["from typing import TYPE_CHECKING", "", "if TYPE_CHECKING:", "    from collections import OrderedDict  # noqa: F401"]
         feats.append("existing-type-checking-block")
     L += st["lines"]
+    if chance(0.2, "type-checking-try") and "existing-type-checking-block" not in feats:
+        L += ["try:", "    from typing import TYPE_CHECKING", "except ImportError:  # very old interpreters", "    TYPE_CHECKING = False"]
+        feats.append("type-checking-bound-in-try")
     L.append("")
     if rng.random() < 0.4:
         L += ["CONSTANT = 3  # module level code", "TABLE = {'a': 1}", ""]
         feats.append("module-code")
-    loc = "    import shapes\n    import geo.util\n" if st.get("local") else ""
+    loc = ""
+    if st.get("local") == "from":
+        loc = "    from shapes import Circle, Square\n    from geo.util import Point\n"
+    elif st.get("local"):
+        loc = "    import shapes\n    import geo.util\n"
     C, S, P, Col = st["Circle"], st["Square"], st["Point"], st["Color"]
     L += [
         "",
@@ -172,6 +181,17 @@ def build(rng, name, opts=None):
             "",
         ]
         feats.append("dict-arg")
+    if chance(0.5, "alias-annotations"):
+        if not any(ln == "import typing" for ln in L):
+            idx = L.index("import functools  # needed by the decorator below")
+            L.insert(idx + 1, "import typing")
+        L += [
+            "def scale_all(values: typing.List[int], factor: int = None) -> typing.List[int]:",
+            "    return [v * (factor or 1) for v in values]",
+            "",
+            "",
+        ]
+        feats.append("alias-annotations")
     L += [
         "class Canvas:",
         '    """A class docstring."""',
@@ -198,7 +218,7 @@ def build(rng, name, opts=None):
         "        return cls(shapes_)",
         "",
     ]
-    if chance(0.4, "nested-class"):
+    if chance(0.15, "nested-class"):
         L += [
             "    class Layer:",
             "        def __init__(self, z):",
@@ -224,6 +244,8 @@ def build(rng, name, opts=None):
         L += ["    out.append([s.r for s in gen_shapes(3)])"]
     if "def settings(" in src:
         L += ["    out.append(settings({'a': 1, 'b': 2}))", "    out.append(settings({'a': 1}))"]
+    if "def scale_all(" in src:
+        L += ["    out.append(scale_all([1, 2], 3))", "    out.append(scale_all([4]))"]
     L += ["    cv = Canvas.of(c).add(make_circle(3))", "    out.append(cv.count)", "    out.append(Canvas.blank().count)", "    out.append(Canvas().width)"]
     if "class Layer" in src:
         L += ["    out.append(Canvas.Layer(2).above(Canvas.Layer(1)))"]
